@@ -53,6 +53,14 @@ impl PathBuf {
         ensures self@.len() > 0 ==> (r matches Some(s) && s@ == self@.last()), self@.len() == 0 ==> r is None
     { unimplemented!() }
 }
+// std's Path::with_extension: the final component's extension is REPLACED (stem kept), not appended
+pub open spec fn with_ext(c: Seq<u8>, e: Seq<u8>) -> Seq<u8> { if e.len() == 0 { stem_of(c) } else { stem_of(c) + seq![46u8] + e } }
+impl PathBuf {
+    #[verifier::external_body]
+    pub fn with_extension<T: OsLike>(&self, e: T) -> (r: PathBuf)
+        ensures self@.len() > 0 ==> r@ == self@.drop_last().push(with_ext(self@.last(), e.os_view())), self@.len() == 0 ==> r@ == self@
+    { unimplemented!() }
+}
 // PathBuf::from(text) / PathBuf::from(&path): the path a text denotes is uninterpreted (only equality matters)
 pub uninterp spec fn path_of_text(s: Seq<char>) -> PathV;
 pub trait PathFromArg { spec fn pv(&self) -> PathV; }
